@@ -726,7 +726,24 @@ pub fn module_swap<S: Src, const FA: usize, const DA: usize, const FB: usize, co
     s.reached("c16.module_swap");
 }
 
+/// swapping a card with itself leaves the module unchanged (any valid index of the given depth)
+pub fn module_swap_self<S: Src, const F: usize, const D: usize>(s: &mut S) {
+    let mut m = skeleton();
+    let fp0 = fingerprint(&m);
+    let a = sym_index::<S, F, D>(s);
+    let ca = ref_get(&m, &a).map(kind_code);
+    let r = m.swap_cards(&a, &a);
+    assert!(r.is_ok() == ca.is_some(), "C16.module.swap_with_itself_succeeds_iff_the_card_exists");
+    assert!(m.get_card(&a).ok().map(kind_code) == ca, "C16.module.swap_with_itself_keeps_the_card");
+    assert!(same_fp(&fingerprint(&m), &fp0), "C16.module.swap_with_itself_is_a_noop");
+    std::mem::forget(r);
+    std::mem::forget(m);
+    s.reached("c16.module_swap_self");
+}
+
 crate::harnesses! {
+    c16_module_swap_self_f0d1 / 18 => module_swap_self::<_, 0, 1>;
+    c16_module_swap_self_f0d2 / 18 => module_swap_self::<_, 0, 2>;
     c16_children_bin_a / 8 => children_agree::<_, 0, 5, 0>;
     c16_children_bin_b / 8 => children_agree::<_, 6, 11, 0>;
     c16_children_bin_c / 8 => children_agree::<_, 12, 16, 0>;
